@@ -58,6 +58,8 @@ fn text_piece() -> BoxedStrategy<Piece> {
         5 => vec(select(vec!['ア', 'イ', 'カ', 'ー', 'ッ', 'ァ', 'ヽ', 'ン', 'ｱ']), 1..6).prop_map(|v| Piece::Raw(v.into_iter().collect())),
         3 => select(vec!['あ', 'a', ' ', '京', '。', '-', 'ー']).prop_map(Piece::Ch),
         1 => pool_char().prop_map(Piece::Ch),
+        // runs of 2^k-1 / 2^k / 2^k+1 digits, numeral characters or katakana: joins of hundreds of tokens
+        1 => (select(vec!["1", "0", "９", "一", "千", "1,", "ア", "ー", "カッ", "ｱ"]), crate::gen::boundary_len(600)).prop_map(|(u, n)| Piece::Rep(u.to_string(), n as u32)),
     ]
     .boxed()
 }
